@@ -2204,7 +2204,7 @@ Section Sim.
                      | Some o => assign ks o (ADict (filter (fun p => negb (accepted ks (fst p))) kw1)) d1
                      | None => Ok d1 end) with
               | Err e => Err e
-              | Ok d2 => Ok (mkst d2 (post_of ks) hc)
+              | Ok d2 => Ok (mkst d2 (map (fun c => (c, map fst d2)) (post_of ks)) hc)
               end
           end
       end.
@@ -2422,7 +2422,7 @@ Proof.
                                  | Some o => assign ks o (ADict unknown) d0
                                  | None => Ok d0 end) with
                           | Err e => Err e
-                          | Ok d' => Ok (mkout d' (post_of ks) hc)
+                          | Ok d' => Ok (mkout d' (map (fun c => (c, map fst d')) (post_of ks)) hc)
                           end
                       end
                   end)).
@@ -2657,7 +2657,8 @@ Proof.
 Qed.
 
 Lemma expected_post ks pos kw o :
-  generated_only ks -> expected_init ks pos kw = Ok o -> o_post o = post_of ks.
+  generated_only ks -> expected_init ks pos kw = Ok o ->
+  o_post o = map (fun c => (c, map fst (o_dict o))) (post_of ks).
 Proof.
   intros G H. unfold expected_init in H.
   destruct (ms ks) as [|m t] eqn:MS; [discriminate|].
@@ -2683,12 +2684,14 @@ Theorem post_init_once ct c pos kw s :
   wf_table ct -> In c (map k_id ct) ->
   wfc (anc ct c) -> generated_only (anc ct c) -> key_guard (anc ct c) pos kw ->
   construct cur ct c pos kw = Ok s ->
-  s_post s = match find k_post (anc ct c) with Some k => [k_id k] | None => [] end.
+  s_post s = match find k_post (anc ct c) with
+             | Some k => [(k_id k, map fst (s_dict s))] | None => [] end.
 Proof.
   intros WT Hc W G KG H.
   pose proof (construct_single_inheritance ct c pos kw WT Hc W G KG) as T.
   rewrite H in T. simpl in T. symmetry in T. unfold expected in T.
-  apply (expected_post _ _ _ _ G) in T. exact T.
+  apply (expected_post _ _ _ _ G) in T. simpl in T. rewrite T. unfold post_of.
+  destruct (find k_post (anc ct c)); reflexivity.
 Qed.
 
 (* ------------------------------------------------------------------ decidable hypotheses *)
